@@ -268,6 +268,16 @@ impl Monitor for C06 {
                 }
             }
         }
+        // a quarter of the trials give every exact zero of the stream a random sign (-0.0 == 0.0 is a
+        // tie and a zero like any other; a test of the sign bit is not)
+        if rng.chance(1, 4) {
+            for x in xs.iter_mut() {
+                if *x == 0.0 && rng.coin() {
+                    *x = -0.0;
+                }
+            }
+            out.count("trials_with_signed_zeros", 1);
+        }
         // one f64 trial in six is quoted in units of 2^-70 or 2^-300: all three views are exactly
         // scale-free, an absolute threshold (a denominator "below epsilon") is not
         let mut xs = xs;
